@@ -326,6 +326,7 @@ def entry_table(tier):
                     if quick and nspin == 2 and fam not in ("VIJ",):
                         continue
                     T.append({"entry": "nldf_feat", "layout": lay, "fam": fam, "plan": plan, "nspin": nspin})
+    T.append({"entry": "nldf_feat", "layout": "HF-8x50-l3-pruned", "fam": "VIJ", "plan": "gaussian", "nspin": 1})
     # gradient helper kernels
     for lay in lays[:2]:
         for fam in ("VJ", "VIJ", "VK"):
